@@ -1,7 +1,8 @@
-\* thorough exhaustive config: snaps a, b, c (+ snapd), at most 3 changes
+\* thorough exhaustive config: snaps a, b (+ snapd), at most 3 changes, with partial progress of in-progress changes
 CONSTANTS
-  Snaps <- MCSnaps3
+  Snaps <- MCSnaps2
   MaxChanges = 3
+  WithPartial = TRUE
 INIT Init
 NEXT Next
 CHECK_DEADLOCK FALSE
